@@ -218,7 +218,7 @@ def PREFIX(sub, p):
 external(E + '_StepGraph.remove', types={'path': 'Path'}, modifies=['self._sequential_steps'],
          why_trusted='networkx graph surgery; the step graph is bounded-checked under C05/C10')
 
-contract(E + 'Engine._delete_path', props=['C10'],
+contract(E + 'Engine._delete_path', props=['C10', 'C03', 'C02', 'C01'],
          types={'deletion': 'Path', 'path': 'Path', 'p': 'Path', 'j': 'Int'},
          requires=['dicts_along(self.processes, deletion)', 'dicts_along(self.steps, deletion)',
                    'dicts_along(self.topology, deletion)', 'dicts_along(self.flow, deletion)'],
